@@ -533,7 +533,7 @@ def stepCore (cx : Ctx) (w : World) (ws : List String) : StepOut :=
       let cap := match rest with
         | [n] => len + (n.toNat?.getD 0)
         | _ => st.capacity
-      let k := min (cap - len) 64
+      let k := min (cap - len) (match rest with | [_] => 1024 | _ => 64)
       let es := (List.range k).map (fun j => sh.elem (j % 32))
       let oi := Model.extend c es
       let os := Spec.extend (getS r) (es.map Cols.rows).flatten
@@ -1113,6 +1113,14 @@ def step (cx : Ctx) (w : World) (ws : List String) : StepOut :=
   | none =>
   match ws with
   | ["tnew", r] => stepCore cx w ["new", r]
+  -- `apply_index` through a named mutable slice that is looked at again afterwards: it still covers all its elements
+  | ["apply_index_reuse", r, idx] =>
+    match stepIter cx w ["apply_index", r, "slicemut", idx] with
+    | some o =>
+      let n := (w.regs.getD ((parseReg r).getD 0) cx.shape.empty).firstLen
+      let m := (w.rows.getD ((parseReg r).getD 0) []).length
+      { o with i := { o.i with ret := if o.i.status == "ok" then s!"P{n},Q{n}" else o.i.ret }, s := { o.s with ret := if o.s.status == "ok" then s!"P{m},Q{m}" else o.s.ret } }
+    | none => badOp w
   -- an iterator whose size_hint promises fewer items than it yields: the generated `Extend` / `FromIterator` are push loops,
   -- what the iterator promises does not matter
   | ["extend_lo", r, ts, _] => stepCore cx w ["extend", r, ts]
